@@ -273,6 +273,40 @@ func checkC11(p *Prog, res *Result, tier string) {
 					res.ok("C11-R1", c3, p.pos(f.Pos()), "no store-level call in the staged operation")
 				}
 			}
+			if ap != "pkg/storage/memkv" {
+				// the condition is read with the Get of the batch's own transaction: that is the read the engine records
+				// for its commit-time conflict detection (also for a key that is absent), and the one that sees what the
+				// batch has staged so far - an iterator, or the Get of a snapshot obtained from the transaction, is neither
+				c5 := fmt.Sprintf("%s.%s: condition read through the transaction's own Get", short, op.name)
+				var own, foreign ssa.CallInstruction
+				for _, g := range withAnon(f) {
+					for _, c := range callsIn(g) {
+						if !isEngineCall(c, "Get") || len(c.Common().Args) == 0 {
+							continue
+						}
+						recv := resolve(c.Common().Args[0])
+						isField := false
+						if ld, ok := recv.(*ssa.UnOp); ok && ld.Op == token.MUL {
+							if _, ok := ld.X.(*ssa.FieldAddr); ok {
+								isField = true
+							}
+						}
+						if isField {
+							own = c
+						} else {
+							foreign = c
+						}
+					}
+				}
+				switch {
+				case foreign != nil:
+					res.bad("C11-R1", c5, p.pos(foreign.Pos()), op.name+" reads the key through something obtained from the transaction (a snapshot) instead of the transaction itself: the read does not see the operations the batch has staged before it, so a condition on a key the same batch has just written or deleted is evaluated against the store")
+				case own == nil:
+					res.bad("C11-R1", c5, p.pos(f.Pos()), op.name+" does not read the key with the transaction's Get (an iterator, or no read at all): the engine records no read of the key for the batch, so its commit-time conflict detection cannot see that another batch wrote the key in between - two overlapping batches whose conditions both held both commit")
+				default:
+					res.ok("C11-R1", c5, p.pos(own.Pos()), "Get on the batch's transaction field")
+				}
+			}
 			if op.name != "PutIfNotExist" && ap != "pkg/storage/memkv" {
 				// an operation on a key that must exist does not write where the engine's read said "no such key"
 				c4 := fmt.Sprintf("%s.%s: no engine write where the read reported not-found", short, op.name)
